@@ -51,14 +51,26 @@ fn id_value(seed: u8, index_bytes: &[u8]) -> Vec<u8> {
   v
 }
 
+/// patterns 2, 3, 4: the content type / content encoding / metaprotocol is LONG (600, 521, 1041 bytes);
+/// these fields are not chunked, so the 520-byte executability oracle does not apply to them
+fn long_field(pattern: u8) -> Option<(u8, usize)> {
+  match pattern {
+    2 => Some((0, 600)),
+    3 => Some((1, 521)),
+    4 => Some((2, 1041)),
+    _ => None,
+  }
+}
+
 fn inscription_of(s: &Spec) -> Inscription {
   let on = |b: u8| s.small & (1 << b) != 0;
-  let p = s.pattern;
+  let p = if s.pattern >= 2 { 0 } else { s.pattern };
   let pick = |a: &[u8], b: &[u8]| if p == 0 { a.to_vec() } else { b.to_vec() };
+  let long = |bit: u8| long_field(s.pattern).filter(|(b, _)| *b == bit).map(|(_, n)| data(n, 7).iter().map(|x| 0x20 + x % 0x5f).collect::<Vec<u8>>());
   Inscription {
     body: s.body.map(|n| data(n as usize, 1)),
-    content_encoding: on(1).then(|| pick(b"br", &[0x81])),
-    content_type: on(0).then(|| pick(b"text/plain;charset=utf-8", &[0x01])),
+    content_encoding: long(1).or_else(|| on(1).then(|| pick(b"br", &[0x81]))),
+    content_type: long(0).or_else(|| on(0).then(|| pick(b"text/plain;charset=utf-8", &[0x01]))),
     delegate: on(3).then(|| {
       if p == 0 {
         id_value(9, &[])
@@ -69,7 +81,7 @@ fn inscription_of(s: &Spec) -> Inscription {
     duplicate_field: false,
     incomplete_field: false,
     metadata: s.metadata.map(|n| data(n as usize, 2)),
-    metaprotocol: on(2).then(|| pick(b"brc-20", &[0x00])),
+    metaprotocol: long(2).or_else(|| on(2).then(|| pick(b"brc-20", &[0x00]))),
     parents: (0..s.parents)
       .map(|k| {
         if p == 0 {
@@ -176,7 +188,7 @@ fn check_batch(specs: &[Spec], wrap: u8, stats: &mut Stats) {
   let parsed = match r {
     Ok((p, longest_push)) => {
       // a reveal script must be executable: script pushes are limited to 520 bytes
-      if longest_push > 520 {
+      if longest_push > 520 && specs.iter().all(|s| long_field(s.pattern).is_none()) {
         stats.violation(
           "build/push-exceeds-520-bytes".into(),
           format!("the reveal script contains a push of {longest_push} bytes (or does not tokenize)"),
@@ -726,6 +738,30 @@ pub fn run(ctx: &Ctx) -> Report {
       },
     );
     acc.absorb("roundtrip/single", results, capped);
+  }
+
+  // (a1b) long values of the fields that are not chunked (content type, content encoding, metaprotocol)
+  {
+    let mut stats = Stats::default();
+    for pattern in 2..=4u8 {
+      for small in [0u8, 0x07, 0x7f, 0x18] {
+        for parents in 0..2u8 {
+          for body in [None, Some(1u32), Some(521)] {
+            for metadata in [None, Some(521u32)] {
+              for wrap in 0..2u8 {
+                check_batch(&[Spec { small, parents, body, metadata, properties: None, pattern }], wrap, &mut stats);
+              }
+            }
+          }
+        }
+      }
+    }
+    // and inside a batch, between two ordinary inscriptions
+    for pattern in 2..=4u8 {
+      let plain = Spec { small: 0x01, parents: 0, body: Some(2), metadata: None, properties: None, pattern: 0 };
+      check_batch(&[plain, Spec { small: 0x05, parents: 1, body: Some(1), metadata: None, properties: None, pattern }, plain], 1, &mut stats);
+    }
+    acc.absorb_one("roundtrip/long-unchunked-field", stats);
   }
 
   // large bodies / metadata (any length): a few big sizes alone
